@@ -3,6 +3,7 @@
    Per op: "<result> | <state of every variable> | <events>"; at the end "fin | <events>". *)
 let nvars = 3
 let nalt = nat_of_int 3
+let esize_re = n_of_string "32"   (* sizeof(Re) *)
 let esize = n_of_string "16"      (* sizeof(El<...>) = sizeof(vh::TV), printed by the harness in its A events *)
 
 let ni s = nat_of_int (int_of_string s)
@@ -145,6 +146,9 @@ let body lines =
     | "var" -> drive parse_var (vstep nalt k) (show_vars show_var) vfinish (vvars0 n) ops
     | "box" -> drive parse_box bstep (show_vars show_box) bfinish (bvars0 n) ops
     | "uptr" -> drive parse_uptr (pstep esize) show_ps pfinish (pstate0 n) ops
+    (* pointees whose destructor resets their owner: only reset(p) differs (the nested reset sees the new pointer) *)
+    | "uptrre" -> drive (fun w -> match parse_uptr w with Some (PResetNew (i, v)) -> Some (PResetNewRe (i, v)) | x -> x)
+                    (pstep esize_re) show_ps pfinish (pstate0 n) ops
     | "umem" -> drive parse_umem mstep show_ms mfinish (mstate0 n) ops
     | "tup" -> List.iter (tuple_line k) ops
     (* initializer_list element category: outside the model (its element is a number); the harness oracle carries it *)
